@@ -16,6 +16,7 @@
 import VotelibProofs.Lemmas.ConvertImages
 import VotelibProofs.Lemmas.ConvertPositional
 import VotelibProofs.Lemmas.ConvertCondorcet
+import VotelibProofs.Lemmas.ConvertMisc
 namespace VL.C13
 open VL VL.Convert
 
@@ -566,7 +567,7 @@ theorem rankedToCondorcet_pairwise_le_total (atBottom : Bool) (p : RProfile)
   pairwise_le_total atBottom _ (nodup_canonSet _) p hb hw x y
 
 /-- a candidate never beats itself on duplicate-free ballots -/
-theorem condorcet_irreflexive (atBottom : Bool) (U : List Cand) (hU : U.Nodup) (p : RProfile)
+theorem condorcet_irreflexive (atBottom : Bool) (U : List Cand) (p : RProfile)
     (hb : ∀ bw ∈ p, (ballotCands bw.1).Nodup) (x : Cand) : toFun (condorcetU atBottom U p) (x, x) = 0 := by
   rw [condorcet_sum]
   rw [← wsum_zero p]
@@ -593,6 +594,427 @@ example : toFun (rankedToCondorcet true [([.shared [1, 2], .one 0], 2), ([.one 0
 theorem pairwise_le_total_needs_nodup :
     ¬ (toFun (condorcetU true [0, 1] [([.one 0, .one 1, .one 0], 1)]) (0, 1)
         + toFun (condorcetU true [0, 1] [([.one 0, .one 1, .one 0], 1)]) (1, 0) ≤ total ([([.one 0, .one 1, .one 0], 1)] : RProfile)) := by
+  decide +kernel
+
+/-! ## ScoreToRankedVotes -/
+
+theorem scoreToRanked_eq_accum (uv : Option Rat) (U : List Cand) :
+    scoreToRankedU uv U = accumOne (fun v : ScoreBallot => some (scoreToRankedOne uv U v)) := rfl
+
+/-- every score ballot counts, with its weight, for exactly one ranking -/
+theorem scoreToRanked_sum (uv : Option Rat) (U : List Cand) :
+    SumOfImages (scoreToRankedU uv U) (fun v k => if scoreToRankedOne uv U v = k then 1 else 0) := by
+  rw [scoreToRanked_eq_accum]
+  intro p k
+  rw [accumOne_sum]; simp
+
+theorem scoreToRanked_additive (uv : Option Rat) (U : List Cand) (p₁ p₂ : SProfile) (k : Ballot) :
+    toFun (scoreToRankedU uv U (p₁ ++ p₂)) k = toFun (scoreToRankedU uv U p₁) k + toFun (scoreToRankedU uv U p₂) k :=
+  (scoreToRanked_sum uv U).additive p₁ p₂ k
+
+theorem scoreToRanked_additive_merged (uv : Option Rat) (U : List Cand) (p₁ p₂ : SProfile) (k : Ballot) :
+    toFun (scoreToRankedU uv U (mergeDict (p₁ ++ p₂))) k
+      = toFun (scoreToRankedU uv U p₁) k + toFun (scoreToRankedU uv U p₂) k :=
+  (scoreToRanked_sum uv U).additive_merged p₁ p₂ k
+
+/-- without `unscored_value` the candidate universe plays no role: the converter as called is additive
+    for all profiles -/
+theorem scoreToRanked_additive_none (p₁ p₂ : SProfile) (k : Ballot) :
+    toFun (scoreToRanked none (p₁ ++ p₂)) k = toFun (scoreToRanked none p₁) k + toFun (scoreToRanked none p₂) k := by
+  have : ∀ U p, scoreToRankedU none U p = scoreToRankedU none [] p := fun U p => rfl
+  unfold scoreToRanked
+  rw [this _ (p₁ ++ p₂), this _ p₁, this _ p₂]
+  exact scoreToRanked_additive none [] p₁ p₂ k
+
+theorem scoreToRanked_weight_conserved (uv : Option Rat) (U : List Cand) (p : SProfile) :
+    total (scoreToRankedU uv U p) = total p := by
+  rw [scoreToRanked_eq_accum, accumOne_total, ← wsum_one]; simp
+
+theorem scoreToRanked_is_dict (uv : Option Rat) (U : List Cand) (p : SProfile) :
+    (dkeys (scoreToRankedU uv U p)).Nodup := by
+  rw [scoreToRanked_eq_accum]; exact accumOne_nodup _ p
+
+/-! ## ScoreToApprovalVotesThreshold -/
+
+theorem scoreToApproval_eq_accum (thr : Rat) :
+    scoreToApproval thr = accumOne (fun v : ScoreBallot => match approvedAt thr v with
+      | [] => none
+      | a :: as => some (a :: as)) := by
+  funext p
+  unfold scoreToApproval accumOne
+  congr 1
+  funext acc bw
+  cases h : approvedAt thr bw.1 <;> simp [h]
+
+/-- a score ballot counts for its approved set — the candidates scored at least the threshold — unless that
+    set is empty -/
+theorem scoreToApproval_sum (thr : Rat) :
+    SumOfImages (scoreToApproval thr) (fun v k => if approvedAt thr v ≠ [] ∧ approvedAt thr v = k then 1 else 0) := by
+  rw [scoreToApproval_eq_accum]
+  intro p k
+  rw [accumOne_sum]
+  apply wsum_congr
+  intro bw _
+  cases h : approvedAt thr bw.1 <;> simp [h]
+
+theorem scoreToApproval_additive (thr : Rat) (p₁ p₂ : SProfile) (k : Approval) :
+    toFun (scoreToApproval thr (p₁ ++ p₂)) k = toFun (scoreToApproval thr p₁) k + toFun (scoreToApproval thr p₂) k :=
+  (scoreToApproval_sum thr).additive p₁ p₂ k
+
+theorem scoreToApproval_additive_merged (thr : Rat) (p₁ p₂ : SProfile) (k : Approval) :
+    toFun (scoreToApproval thr (mergeDict (p₁ ++ p₂))) k
+      = toFun (scoreToApproval thr p₁) k + toFun (scoreToApproval thr p₂) k :=
+  (scoreToApproval_sum thr).additive_merged p₁ p₂ k
+
+/-- the approved set: strictly increasing, exactly the candidates with a score ≥ threshold -/
+theorem scoreToApproval_image (thr : Rat) (v : ScoreBallot) :
+    (approvedAt thr v).Pairwise (· < ·) ∧ ∀ c, c ∈ approvedAt thr v ↔ ∃ s, (c, s) ∈ v ∧ thr ≤ s :=
+  ⟨sorted_canonSet _, mem_approvedAt thr v⟩
+
+theorem scoreToApproval_weight_conserved (thr : Rat) (p : SProfile) :
+    total (scoreToApproval thr p) = wsum p (fun v => if approvedAt thr v = [] then 0 else 1) := by
+  rw [scoreToApproval_eq_accum, accumOne_total]
+  apply wsum_congr
+  intro bw _
+  cases h : approvedAt thr bw.1 <;> simp
+
+theorem scoreToApproval_is_dict (thr : Rat) (p : SProfile) : (dkeys (scoreToApproval thr p)).Nodup := by
+  rw [scoreToApproval_eq_accum]; exact accumOne_nodup _ p
+
+/-! ## InvertedSimpleVotes / InvertedApprovalVotes (dict comprehensions: inputs are dicts) -/
+
+/-- every count changes sign, nothing else -/
+theorem invertedSimple_image {κ : Type} [DecidableEq κ] (p : Dict κ) (h : (dkeys p).Nodup) :
+    invertedSimple p = p.map (fun cw => (cw.1, -cw.2)) := invertedSimple_eq h
+
+theorem invertedSimple_toFun {κ : Type} [DecidableEq κ] (p : Dict κ) (h : (dkeys p).Nodup) (k : κ) :
+    toFun (invertedSimple p) k = - toFun p k := by
+  rw [invertedSimple_eq h, toFun_map_neg]
+
+/-- additivity for dicts: the inverse of the dict `A + B` is the sum of the inverses -/
+theorem invertedSimple_additive_merged {κ : Type} [DecidableEq κ] (p₁ p₂ : Dict κ)
+    (h₁ : (dkeys p₁).Nodup) (h₂ : (dkeys p₂).Nodup) (k : κ) :
+    toFun (invertedSimple (mergeDict (p₁ ++ p₂))) k = toFun (invertedSimple p₁) k + toFun (invertedSimple p₂) k := by
+  rw [invertedSimple_toFun _ (nodup_mergeDict _), invertedSimple_toFun _ h₁, invertedSimple_toFun _ h₂,
+    toFun_mergeDict, toFun_append]; ring
+
+/-- over a fixed universe the inverted approval profile is the sum of the ballot images: each ballot
+    counts for the candidates of the universe it does not approve -/
+theorem invertedApproval_sum (U : List Cand) (p : AProfile) (h : AWF U p) (k : Approval) :
+    toFun (invertedApprovalU U p) k = wsum p (fun b => if complIn U b = k then 1 else 0) := by
+  rw [invertedApprovalU_eq h, toFun_map_key]
+
+theorem invertedApproval_image (U : List Cand) (b : Approval) :
+    (complIn U b).Pairwise (· < ·) ∧ ∀ c, c ∈ complIn U b ↔ c ∈ U ∧ c ∉ b :=
+  ⟨sorted_canonSet _, mem_complIn U b⟩
+
+theorem awf_mergeDict {U : List Cand} {p : AProfile} (h : ∀ bw ∈ p, bw.1.Pairwise (· < ·) ∧ ∀ c ∈ bw.1, c ∈ U) :
+    AWF U (mergeDict p) := by
+  refine ⟨nodup_mergeDict p, fun bw hbw => ?_⟩
+  have : bw.1 ∈ dkeys p := (mem_dkeys_mergeDict _ _).1 (List.mem_map.2 ⟨bw, hbw, rfl⟩)
+  obtain ⟨bw', hbw', e⟩ := List.mem_map.1 this
+  rw [← e]; exact h bw' hbw'
+
+theorem invertedApproval_additive_merged (U : List Cand) (p₁ p₂ : AProfile) (h₁ : AWF U p₁) (h₂ : AWF U p₂)
+    (k : Approval) :
+    toFun (invertedApprovalU U (mergeDict (p₁ ++ p₂))) k
+      = toFun (invertedApprovalU U p₁) k + toFun (invertedApprovalU U p₂) k := by
+  have hm : AWF U (mergeDict (p₁ ++ p₂)) := awf_mergeDict (fun bw hbw => by
+    rcases List.mem_append.1 hbw with h | h
+    · exact h₁.2 bw h
+    · exact h₂.2 bw h)
+  rw [invertedApproval_sum U _ hm, invertedApproval_sum U _ h₁, invertedApproval_sum U _ h₂, wsum_mergeDict,
+    wsum_append]
+
+theorem invertedApproval_weight_conserved (U : List Cand) (p : AProfile) (h : AWF U p) :
+    total (invertedApprovalU U p) = total p := by
+  rw [invertedApprovalU_eq h, total_map_key]
+
+/-! ## VoteTotals / ConstituencyTotals -/
+
+/-- the total of candidate `k` is the sum of its votes over all districts -/
+theorem voteTotals_sum {δ κ : Type} [DecidableEq κ] (p : List (δ × Dict κ)) (k : κ) :
+    toFun (voteTotals p) k = nsumAll p (fun d => toFun d k) := toFun_voteTotals p k
+
+theorem voteTotals_additive {δ κ : Type} [DecidableEq κ] (p₁ p₂ : List (δ × Dict κ)) (k : κ) :
+    toFun (voteTotals (p₁ ++ p₂)) k = toFun (voteTotals p₁) k + toFun (voteTotals p₂) k := by
+  rw [voteTotals_sum, voteTotals_sum, voteTotals_sum, nsumAll_append]
+
+/-- for the nested dict `A + B` (district-wise `sum_dicts`) -/
+theorem voteTotals_additive_merged {δ κ : Type} [DecidableEq δ] [DecidableEq κ] (p₁ p₂ : List (δ × Dict κ)) (k : κ) :
+    toFun (voteTotals (mergeNested (p₁ ++ p₂))) k = toFun (voteTotals p₁) k + toFun (voteTotals p₂) k := by
+  rw [voteTotals_sum, voteTotals_sum, voteTotals_sum, nsumAll_mergeNested (toFun_dictAdditive k), nsumAll_append]
+
+/-- no vote is lost or doubled: the grand total is the sum of the district totals -/
+theorem voteTotals_weight_conserved {δ κ : Type} [DecidableEq κ] (p : List (δ × Dict κ)) :
+    total (voteTotals p) = nsumAll p total := total_voteTotals p
+
+theorem voteTotals_is_dict {δ κ : Type} [DecidableEq κ] (p : List (δ × Dict κ)) : (dkeys (voteTotals p)).Nodup :=
+  nodup_voteTotals p
+
+/-- the total of a district is the sum of the votes filed under it -/
+theorem constituencyTotals_sum {δ κ : Type} [DecidableEq δ] (p : List (δ × Dict κ)) (h : (dkeys p).Nodup) (d : δ) :
+    toFun (constituencyTotals p) d = nsum p d total := toFun_constituencyTotals h d
+
+theorem constituencyTotals_additive_merged {δ κ : Type} [DecidableEq δ] [DecidableEq κ] (p₁ p₂ : List (δ × Dict κ))
+    (h₁ : (dkeys p₁).Nodup) (h₂ : (dkeys p₂).Nodup) (d : δ) :
+    toFun (constituencyTotals (mergeNested (p₁ ++ p₂))) d
+      = toFun (constituencyTotals p₁) d + toFun (constituencyTotals p₂) d := by
+  rw [constituencyTotals_sum _ (nodup_mergeNested _), constituencyTotals_sum _ h₁, constituencyTotals_sum _ h₂,
+    nsum_mergeNested total_dictAdditive, nsum_append]
+
+/-! ## SubsettedVotes with the four subsetters -/
+
+theorem subsetted_eq_accum {κ : Type} [DecidableEq κ] (sub : κ → Option κ) : subsetted sub = accumOne sub := rfl
+
+/-- every ballot counts, with its weight, for its sub-vote (when the subsetter keeps it) -/
+theorem subsetted_sum {κ : Type} [DecidableEq κ] (sub : κ → Option κ) :
+    SumOfImages (subsetted sub) (fun b k => if sub b = some k then 1 else 0) := accumOne_sum sub
+
+theorem subsetted_additive {κ : Type} [DecidableEq κ] (sub : κ → Option κ) (p₁ p₂ : Dict κ) (k : κ) :
+    toFun (subsetted sub (p₁ ++ p₂)) k = toFun (subsetted sub p₁) k + toFun (subsetted sub p₂) k :=
+  (subsetted_sum sub).additive p₁ p₂ k
+
+theorem subsetted_additive_merged {κ : Type} [DecidableEq κ] (sub : κ → Option κ) (p₁ p₂ : Dict κ) (k : κ) :
+    toFun (subsetted sub (mergeDict (p₁ ++ p₂))) k = toFun (subsetted sub p₁) k + toFun (subsetted sub p₂) k :=
+  (subsetted_sum sub).additive_merged p₁ p₂ k
+
+theorem subsetted_weight_conserved {κ : Type} [DecidableEq κ] (sub : κ → Option κ) (p : Dict κ) :
+    total (subsetted sub p) = wsum p (fun b => if (sub b).isSome then 1 else 0) := accumOne_total sub p
+
+theorem subsetted_is_dict {κ : Type} [DecidableEq κ] (sub : κ → Option κ) (p : Dict κ) :
+    (dkeys (subsetted sub p)).Nodup := accumOne_nodup sub p
+
+/-- SimpleSubsetter: the candidate itself when it belongs to the subset, dropped otherwise -/
+theorem subsetSimple_image (S : List Cand) (c : Cand) :
+    subsetSimple S c = if c ∈ S then some c else none := rfl
+
+/-- ApprovalSubsetter: the intersection with the subset (never dropped), still canonical -/
+theorem subsetApproval_image (S : List Cand) (v : Approval) (hv : v.Pairwise (· < ·)) :
+    ∃ v', subsetApproval S v = some v' ∧ v'.Pairwise (· < ·) ∧ ∀ c, c ∈ v' ↔ c ∈ v ∧ c ∈ S :=
+  ⟨_, rfl, hv.filter _, fun c => by simp⟩
+
+/-- RankedSubsetter: **its sub-ranking over the candidate subset** — the candidates of the subset in the
+    ballot's order, the same order relation between them, no empty place (never dropped) -/
+theorem subsetRanked_image (S : List Cand) (b : Ballot) :
+    ∃ b', subsetRanked S b = some b' ∧
+      ballotCands b' = (ballotCands b).filter (fun c => c ∈ S) ∧
+      (∀ x y, Above b' x y ↔ Above b x y ∧ x ∈ S ∧ y ∈ S) ∧
+      ∀ it ∈ b', it.cands ≠ [] :=
+  ⟨_, rfl, ballotCands_subsetRankedOne S b, above_subsetRankedOne S b, subsetRankedOne_items S b⟩
+
+/-- ScoreSubsetter: the scores of the subset's candidates (never dropped) -/
+theorem subsetScore_image (S : List Cand) (v : ScoreBallot) :
+    ∃ v', subsetScore S v = some v' ∧ ∀ c s, (c, s) ∈ v' ↔ (c, s) ∈ v ∧ c ∈ S :=
+  ⟨_, rfl, fun c s => by simp⟩
+
+/-- for the three subsetters that never drop a ballot, total weight is conserved -/
+theorem subsetted_weight_conserved_ranked (S : List Cand) (p : RProfile) :
+    total (subsetted (subsetRanked S) p) = total p := by
+  rw [subsetted_weight_conserved, ← wsum_one]; rfl
+
+theorem subsetted_weight_conserved_approval (S : List Cand) (p : AProfile) :
+    total (subsetted (subsetApproval S) p) = total p := by
+  rw [subsetted_weight_conserved, ← wsum_one]; rfl
+
+theorem subsetted_weight_conserved_score (S : List Cand) (p : SProfile) :
+    total (subsetted (subsetScore S) p) = total p := by
+  rw [subsetted_weight_conserved, ← wsum_one]; rfl
+
+/-! ## IndividualToPartyVotes -/
+
+/-- domain of the mapper: with `independents='error'` every candidate needs a party -/
+def PartyOK (aff : Cand → Option Nat) (ind : Independents) (p : Dict Cand) : Prop :=
+  ind = .error → ∀ cw ∈ p, (aff cw.1).isSome
+
+/-- the party of a candidate: its affiliation; an independent is kept / aggregated under `None` / ignored -/
+theorem mapKey_image (aff : Cand → Option Nat) (ind : Independents) (c : Cand) :
+    mapKey aff ind c = match aff c, ind with
+      | some party, _ => some (.party party)
+      | none, .keep => some (.indep c)
+      | none, .aggregate => some .none
+      | none, _ => none := by
+  unfold mapKey mapParty
+  cases aff c <;> cases ind <;> rfl
+
+/-- the votes of a party are the sum of the votes of the candidates mapped to it -/
+theorem individualToParty_sum (aff : Cand → Option Nat) (ind : Independents) (p : Dict Cand) (h : PartyOK aff ind p) :
+    ∃ d, individualToParty aff ind p = .ok d ∧ (dkeys d).Nodup ∧
+      (∀ k, toFun d k = wsum p (fun c => if mapKey aff ind c = some k then 1 else 0)) ∧
+      total d = wsum p (fun c => if (mapKey aff ind c).isSome then 1 else 0) :=
+  ⟨_, individualToParty_eq_ok aff ind p h, accumOne_nodup _ p, fun k => accumOne_sum _ p k, accumOne_total _ p⟩
+
+theorem individualToParty_rejects (aff : Cand → Option Nat) (p : Dict Cand) (h : ¬ PartyOK aff .error p) :
+    individualToParty aff .error p = .error .candidateError := by
+  apply individualToParty_eq_error
+  unfold PartyOK at h
+  push Not at h
+  obtain ⟨_, cw, hcw, hn⟩ := h
+  exact ⟨cw, hcw, by cases ha : aff cw.1 <;> simp_all⟩
+
+theorem individualToParty_additive_merged (aff : Cand → Option Nat) (ind : Independents) (p₁ p₂ : Dict Cand)
+    (h : PartyOK aff ind (p₁ ++ p₂)) :
+    ∃ d d₁ d₂, individualToParty aff ind (mergeDict (p₁ ++ p₂)) = .ok d ∧ individualToParty aff ind p₁ = .ok d₁ ∧
+      individualToParty aff ind p₂ = .ok d₂ ∧ ∀ k, toFun d k = toFun d₁ k + toFun d₂ k := by
+  have hm : PartyOK aff ind (mergeDict (p₁ ++ p₂)) := by
+    intro he cw hcw
+    have : cw.1 ∈ dkeys (p₁ ++ p₂) := (mem_dkeys_mergeDict _ _).1 (List.mem_map.2 ⟨cw, hcw, rfl⟩)
+    obtain ⟨cw', hcw', e⟩ := List.mem_map.1 this
+    rw [← e]; exact h he cw' hcw'
+  obtain ⟨d, hd, _, hs, _⟩ := individualToParty_sum aff ind _ hm
+  obtain ⟨d₁, hd₁, _, hs₁, _⟩ := individualToParty_sum aff ind p₁ (fun he cw hcw => h he cw (List.mem_append_left _ hcw))
+  obtain ⟨d₂, hd₂, _, hs₂, _⟩ := individualToParty_sum aff ind p₂ (fun he cw hcw => h he cw (List.mem_append_right _ hcw))
+  exact ⟨d, d₁, d₂, hd, hd₁, hd₂, fun k => by rw [hs, hs₁, hs₂, wsum_mergeDict, wsum_append]⟩
+
+/-! ## RoundedVotes (per-key image; additive only across disjoint keys) -/
+
+/-- every count is rounded by itself: to the grid `10^-decimals`, within half a step, ties away from zero -/
+theorem rounded_image {κ : Type} [DecidableEq κ] (k : Nat) (p : Dict κ) (h : (dkeys p).Nodup) :
+    roundedVotes k p = p.map (fun kv => (kv.1, roundHalfUp k kv.2)) := roundedVotes_eq k h
+
+theorem rounded_value (d : Nat) (x : Rat) :
+    ∃ z : Int, roundHalfUp d x = (z : Rat) / ((10 ^ d : Nat) : Rat) ∧
+      |x * ((10 ^ d : Nat) : Rat) - (z : Rat)| ≤ 1 / 2 ∧
+      (|x * ((10 ^ d : Nat) : Rat) - (z : Rat)| = 1 / 2 → |x * ((10 ^ d : Nat) : Rat)| < |(z : Rat)|) :=
+  roundHalfUp_spec d x
+
+/-- additivity on profiles with disjoint keys -/
+theorem rounded_additive_disjoint {κ : Type} [DecidableEq κ] (k : Nat) (p₁ p₂ : Dict κ)
+    (h : (dkeys (p₁ ++ p₂)).Nodup) :
+    roundedVotes k (p₁ ++ p₂) = roundedVotes k p₁ ++ roundedVotes k p₂ := by
+  have h' := h
+  simp only [dkeys, List.map_append] at h'
+  rw [List.nodup_append] at h'
+  rw [roundedVotes_eq k h, roundedVotes_eq k h'.1, roundedVotes_eq k h'.2.1, List.map_append]
+
+/-- RoundedVotes is NOT additive as a function: two halves round up separately -/
+theorem rounded_not_additive_witness :
+    ¬ (toFun (roundedVotes 0 (mergeDict ([((0 : Cand), (1 / 2 : Rat))] ++ [(0, 1 / 2)]))) 0
+        = toFun (roundedVotes 0 [((0 : Cand), (1 / 2 : Rat))]) 0 + toFun (roundedVotes 0 [((0 : Cand), (1 / 2 : Rat))]) 0) := by
+  decide +kernel
+
+/-! ## Chain -/
+
+theorem chain_nil (v : Val) : applyChain [] v = .ok v := by simp [applyChain]
+
+theorem chain_cons (c : Conv) (cs : List Conv) (v : Val) :
+    applyChain (c :: cs) v = match applyConv c v with
+      | .ok v' => applyChain cs v'
+      | .error e => .error e := by
+  simp only [applyChain]
+  cases applyConv c v <;> rfl
+
+/-- `Chain(cs₁ + cs₂)` is `Chain(cs₂)` after `Chain(cs₁)` -/
+theorem chain_append (cs₁ cs₂ : List Conv) (v : Val) :
+    applyChain (cs₁ ++ cs₂) v = match applyChain cs₁ v with
+      | .ok v' => applyChain cs₂ v'
+      | .error e => .error e := by
+  induction cs₁ generalizing v with
+  | nil => simp [chain_nil]
+  | cons c cs ih =>
+    rw [List.cons_append, chain_cons, chain_cons]
+    cases applyConv c v with
+    | ok v' => exact ih v'
+    | error e => rfl
+
+/-- a `Chain` used as a converter is the chain -/
+theorem conv_chain (cs : List Conv) (v : Val) : applyConv (.chain cs) v = applyChain cs v := by
+  cases v <;> simp [applyConv]
+
+/-- the unsplit approval aggregation as a total function -/
+def approvalUnsplit (p : AProfile) : Dict Cand := p.foldl (approvalStep false) []
+
+theorem approvalUnsplit_sum : SumOfImages approvalUnsplit (approvalImage false) := by
+  intro p k
+  unfold approvalUnsplit
+  rw [toFun_foldl_step _ (approvalImage false) (toFun_approvalStep false)]; simp
+
+/-- `Chain([RankedToApprovalVotes(), ApprovalToSimpleVotes()])` computes the composition … -/
+theorem chain_ranked_approval_simple (p : RProfile) :
+    applyChain [.rankedToApproval, .approvalToSimple false] (.ranked p)
+      = .ok (.simple (approvalUnsplit (rankedToApproval p))) := by
+  simp [chain_cons, chain_nil, applyConv, approvalToSimple_eq_ok false _ (fun h => by cases h), approvalUnsplit,
+    Except.map]
+
+/-- … and the composition of two sums of images is additive: nothing is lost between the stages -/
+theorem chain_ranked_approval_simple_additive (p₁ p₂ : RProfile) (k : Cand) :
+    toFun (approvalUnsplit (rankedToApproval (mergeDict (p₁ ++ p₂)))) k
+      = toFun (approvalUnsplit (rankedToApproval p₁)) k + toFun (approvalUnsplit (rankedToApproval p₂)) k :=
+  rankedToApproval_sum.comp_additive_merged approvalUnsplit_sum p₁ p₂ k
+
+/-- the general composition law used above, for any two converters that are sums of images -/
+theorem chain_two_additive {β κ γ : Type} [DecidableEq β] [DecidableEq κ] [DecidableEq γ]
+    {X : Dict β → Dict κ} {Y : Dict κ → Dict γ} {img₁ : β → κ → Rat} {img₂ : κ → γ → Rat}
+    (hX : SumOfImages X img₁) (hY : SumOfImages Y img₂) (p₁ p₂ : Dict β) (g : γ) :
+    toFun (Y (X (mergeDict (p₁ ++ p₂)))) g = toFun (Y (X p₁)) g + toFun (Y (X p₂)) g :=
+  hX.comp_additive_merged hY p₁ p₂ g
+
+/-- `Chain([ScoreToApprovalVotesThreshold(t), ApprovalToSimpleVotes()])` -/
+theorem chain_score_approval_simple_additive (thr : Rat) (p₁ p₂ : SProfile) (k : Cand) :
+    toFun (approvalUnsplit (scoreToApproval thr (mergeDict (p₁ ++ p₂)))) k
+      = toFun (approvalUnsplit (scoreToApproval thr p₁)) k + toFun (approvalUnsplit (scoreToApproval thr p₂)) k :=
+  (scoreToApproval_sum thr).comp_additive_merged approvalUnsplit_sum p₁ p₂ k
+
+/-! ## SubsettedVotes with depth 1 (nested by district) -/
+
+/-- one nesting level: every district is subsetted by itself -/
+theorem subsettedNested_image {δ κ : Type} [DecidableEq δ] [DecidableEq κ] (sub : κ → Option κ)
+    (p : List (δ × Dict κ)) (h : (dkeys p).Nodup) :
+    subsettedNested sub p = p.map (fun dv => (dv.1, subsetted sub dv.2)) := by
+  unfold subsettedNested
+  apply dictOf_of_nodup
+  have : dkeys (p.map (fun dv => (dv.1, subsetted sub dv.2))) = dkeys p := by
+    unfold dkeys; rw [List.map_map]; rfl
+  rw [this]; exact h
+
+/-! ## InvertedApprovalVotes as called: the universe is the set of approved candidates -/
+
+/-- a dict of canonical approval ballots is well-formed over its own candidate set -/
+theorem invertedApproval_awf (p : AProfile) (hk : (dkeys p).Nodup) (hc : ∀ bw ∈ p, bw.1.Pairwise (· < ·)) :
+    AWF (allApproved p) p := by
+  refine ⟨hk, fun bw hbw => ⟨hc bw hbw, fun c hcb => ?_⟩⟩
+  unfold allApproved
+  rw [mem_canonSet, List.mem_flatMap]
+  exact ⟨bw, hbw, hcb⟩
+
+theorem invertedApproval_top_sum (p : AProfile) (hk : (dkeys p).Nodup) (hc : ∀ bw ∈ p, bw.1.Pairwise (· < ·))
+    (k : Approval) :
+    toFun (invertedApproval p) k = wsum p (fun b => if complIn (allApproved p) b = k then 1 else 0) :=
+  invertedApproval_sum _ p (invertedApproval_awf p hk hc) k
+
+/-! ## non-vacuity: concrete inputs meeting the hypotheses of the conditional theorems -/
+
+example : ApprovalOK true [([0, 1], 2), ([1], 1 / 2), ([0, 1, 2], 3)] := by decide +kernel
+example : ¬ ApprovalOK true [([0, 1], 2), ([], 1)] := by decide +kernel
+example : approvalToSimple true [([0, 1], 2), ([1], 1 / 2)] = .ok [(0, 1), (1, 3 / 2)] := by decide +kernel
+
+example : Covers [0, 1, 2] [([.shared [0, 1], .one 2], 2), ([.one 2], 1 / 2), ([], 4)] ∧
+    ScorerOK (.borda 1) 3 [([.shared [0, 1], .one 2], 2), ([.one 2], 1 / 2), ([], 4)] := by decide +kernel
+example : ¬ ScorerOK (.borda 1) 1 [([.one 0, .one 0], 2)] := by decide +kernel
+example : rankedToPositional (.borda 1) [([.shared [0, 1], .one 2], 2), ([.one 2], 1 / 2), ([], 4)]
+    = .ok [(0, 6), (1, 6), (2, 11 / 2)] := by decide +kernel
+example : rankedToPositional .dowdall [([.one 0, .one 1, .one 2], 6)] = .ok [(0, 6), (1, 3), (2, 2)] := by
+  decide +kernel
+
+example : AWF [0, 1, 2] [([0, 1], 2), ([], 1), ([2], 3)] := by
+  refine ⟨by decide, ?_⟩
+  intro bw hbw
+  simp only [List.mem_cons, List.not_mem_nil, or_false] at hbw
+  rcases hbw with rfl | rfl | rfl <;> exact ⟨by decide, by decide⟩
+example : invertedApproval [([0, 1], 2), ([], 1), ([2], 3)] = [([2], 2), ([0, 1, 2], 1), ([0, 1], 3)] := by
+  decide +kernel
+
+example : PartyOK (affOf [(0, 7), (1, 7), (2, 8)]) .error [(0, 3), (1, 4), (2, 5)] := by
+  intro _ cw hcw
+  simp only [List.mem_cons, List.not_mem_nil, or_false] at hcw
+  rcases hcw with rfl | rfl | rfl <;> decide
+example : individualToParty (affOf [(0, 7), (1, 7)]) .aggregate [(0, 3), (1, 4), (2, 5)]
+    = .ok [(.party 7, 7), (.none, 5)] := by decide +kernel
+
+example : scoreToRanked (some 0) [([(0, 1), (1, 1), (2, 3)], 2), ([(3, 2)], 1)]
+    = [([.one 2, .shared [0, 1], .one 3], 2), ([.one 3, .shared [0, 1, 2]], 1)] := by decide +kernel
+
+example : subsetRankedOne [0, 2] [.shared [0, 1], .one 2, .one 3, .shared [1, 3]] = [.one 0, .one 2] := by
   decide +kernel
 
 end VL.C13
